@@ -24,6 +24,8 @@ struct Th {
     status: Status,
     label: String,
     free: Option<FreePtr>,
+    /// (lock address, exclusive) of the pending acquisition, if the point is a lock point
+    lock: Option<(usize, bool)>,
 }
 
 pub type Monitor = Box<dyn FnMut(usize, &str) + Send>;
@@ -103,6 +105,30 @@ fn decide(inner: &Inner, st: &mut St) {
         inner.cv_main.notify_all();
         return;
     }
+    // parking_lot gives waiting writers preference: once an exclusive acquisition of a read-held lock is queued, further
+    // shared acquisitions of that lock block. A parked shared request on L is therefore "writer-blocked" if some parked
+    // exclusive request on the same L is currently not free although L is not exclusively held (= L is read-held). If every
+    // enabled thread is writer-blocked, the interleaving in which the writers queued first leaves nobody able to run: the
+    // reader(s) holding L wait behind the writer that waits for them (a recursive read under a queued writer).
+    {
+        let mut blocked_writers: Vec<usize> = Vec::new();
+        for t in st.th.iter() {
+            if t.status == Status::Parked {
+                if let (Some((addr, true)), Some(FreePtr(p))) = (t.lock, &t.free) {
+                    if !unsafe { (&**p)() } {
+                        blocked_writers.push(addr);
+                    }
+                }
+            }
+        }
+        let writer_blocked = |i: &usize| matches!(st.th[*i].lock, Some((addr, false)) if blocked_writers.contains(&addr));
+        if !blocked_writers.is_empty() && enabled.iter().all(writer_blocked) {
+            let waiting = st.th.iter().enumerate().filter(|(_, t)| t.status == Status::Parked).map(|(i, t)| format!("T{i}@{}", t.label)).collect::<Vec<_>>();
+            st.outcome = Some(Outcome::Deadlock { waiting: std::iter::once("writer preference: a shared acquisition requested while an exclusive one is queued on the same read-held lock".to_string()).chain(waiting).collect() });
+            inner.cv_main.notify_all();
+            return;
+        }
+    }
     let running_enabled = st.running.map_or(false, |r| enabled.contains(&r));
     if running_enabled {
         let r = st.running.unwrap();
@@ -137,6 +163,10 @@ fn decide(inner: &Inner, st: &mut St) {
 
 /// Park the calling worker at a scheduling point until it is granted the turn (possibly at once).
 fn yield_here(label: String, free: Option<FreePtr>) {
+    yield_at(label, free, None)
+}
+
+fn yield_at(label: String, free: Option<FreePtr>, lock: Option<(usize, bool)>) {
     if IN_MONITOR.with(|f| f.get()) {
         return;
     }
@@ -150,6 +180,7 @@ fn yield_here(label: String, free: Option<FreePtr>) {
     st.th[id].status = Status::Parked;
     st.th[id].label = label;
     st.th[id].free = free;
+    st.th[id].lock = lock;
     if st.turn == Some(id) {
         st.turn = None;
     }
@@ -196,7 +227,7 @@ fn install_hooks(visible: fn(&Event<'_>) -> bool) {
         // the closure lives on the caller's stack and the caller stays parked while the controller evaluates it
         let ptr: *const (dyn Fn() -> bool + '_) = p.is_free;
         let ptr: *const (dyn Fn() -> bool + 'static) = unsafe { std::mem::transmute(ptr) };
-        yield_here(format!("{}:{:?}{}", p.label, p.lock, if p.exclusive { "" } else { "(shared)" }), Some(FreePtr(ptr)));
+        yield_at(format!("{}:{:?}{}", p.label, p.lock, if p.exclusive { "" } else { "(shared)" }), Some(FreePtr(ptr)), Some((p.addr, p.exclusive)));
     })));
     let _ = visible;
 }
@@ -270,7 +301,7 @@ pub fn run_schedule(root: &std::path::Path, bodies: Vec<Body>, prefix: &[usize],
     let inner = Arc::new(Inner {
         m: Mutex::new(St {
             turn: None,
-            th: (0..n).map(|_| Th { status: Status::NotStarted, label: String::new(), free: None }).collect(),
+            th: (0..n).map(|_| Th { status: Status::NotStarted, label: String::new(), free: None, lock: None }).collect(),
             points: Vec::new(),
             running: None,
             prefix: prefix.to_vec(),
